@@ -1722,3 +1722,186 @@ func normaliseGuard(s string) string {
 	s = strings.ReplaceAll(s, "descriptor", "C")
 	return strings.Join(strings.Fields(s), " ")
 }
+
+// c10ValueStoredLast (VALUE-STORED-LAST): a map whose values are structs (not pointers) keeps a *copy* of what is
+// stored. A local struct that is put into such a map and modified afterwards (a field assignment, or a pointer-receiver
+// method such as addDeps) leaves the map holding the unfinished copy; a later "already in the map, skip" test then
+// presents that stale copy as the final answer (the dep-graph JSON lost the dependencies of every module first reached
+// as somebody's dependency). Decided on SSA for the dependency-graph command and the module packages: after a store of
+// a local struct value into a map, no instruction reachable from the store writes to that local or passes its address
+// to a call, unless the local is first overwritten as a whole (next loop iteration).
+func c10ValueStoredLast(c *Ctx) {
+	const rule = "VALUE-STORED-LAST"
+	c.Rule(rule, "a struct value is stored into a map only after it is complete", 1)
+	p := c.P
+	var pkgs []*packages.Package
+	for _, rel := range []string{"private/buf/cmd/buf/command/dep/depgraph", "private/bufpkg/bufmodule", "private/buf/bufworkspace"} {
+		if q := p.Pkg(rel); q != nil {
+			pkgs = append(pkgs, q)
+		}
+	}
+	n := 0
+	for _, sf := range p.SSAFuncsOf(pkgs) {
+		for _, f := range allSSAFuncs(sf) {
+			for _, b := range f.Blocks {
+				for idx, ins := range b.Instrs {
+					mu, ok := ins.(*ssa.MapUpdate)
+					if !ok {
+						continue
+					}
+					if _, isStruct := mu.Value.Type().Underlying().(*types.Struct); !isStruct {
+						continue
+					}
+					u, ok := mu.Value.(*ssa.UnOp)
+					if !ok || u.Op != token.MUL {
+						continue
+					}
+					al, ok := u.X.(*ssa.Alloc)
+					if !ok {
+						continue
+					}
+					n++
+					// later mutations of the local
+					mutates := func(x ssa.Instruction) bool {
+						switch y := x.(type) {
+						case *ssa.Store:
+							if fa, ok := y.Addr.(*ssa.FieldAddr); ok && fa.X == ssa.Value(al) {
+								return true
+							}
+						case ssa.CallInstruction:
+							for _, a := range y.Common().Args {
+								if a == ssa.Value(al) {
+									return true
+								}
+							}
+						}
+						return false
+					}
+					redefines := func(x ssa.Instruction) bool {
+						st, ok := x.(*ssa.Store)
+						return ok && st.Addr == ssa.Value(al)
+					}
+					bad := ""
+					// rest of this block, then forward over the CFG; a whole-value store to the local ends a path
+					seen := map[*ssa.BasicBlock]bool{}
+					var walk func(blk *ssa.BasicBlock, from int)
+					walk = func(blk *ssa.BasicBlock, from int) {
+						for _, x := range blk.Instrs[from:] {
+							if redefines(x) {
+								return
+							}
+							if mutates(x) && bad == "" {
+								bad = p.Pos(x.Pos())
+							}
+						}
+						for _, s := range blk.Succs {
+							if !seen[s] {
+								seen[s] = true
+								walk(s, 0)
+							}
+						}
+					}
+					walk(b, idx+1)
+					c.Ob(rule, fmt.Sprintf("%s/store#%d", ssaFuncName(f), n), mu.Pos(), bad == "", true, "local struct %s is not modified after its value was stored in the map: %v %s", al.Comment, bad == "", bad)
+				}
+			}
+		}
+	}
+	if n == 0 {
+		c.Fail(rule, "anchor", token.NoPos, "no store of a local struct value into a map found")
+	}
+}
+
+// c10ImportsAllResolved (IMPORTS-ALL-RESOLVED): the dependency walk learns a module's dependencies - and notices
+// dependency cycles - by asking, for every import of every file of the module, which module provides it. That
+// question must be asked for every import on every visit: in the loop over a file's imports, the statement that
+// performs the lookup (directly, or through a helper of the package) is a top-level statement of the loop body and
+// nothing before it can `continue` past an import. A memo of "paths already resolved" shared across the recursion
+// skips the very import that closes a cycle a -> b -> a when the root also imports that file itself.
+func c10ImportsAllResolved(c *Ctx) {
+	const rule = "IMPORTS-ALL-RESOLVED"
+	c.Rule(rule, "every import of every file is resolved to its module on every visit", 1)
+	p := c.P
+	pk := p.Pkg("private/bufpkg/bufmodule")
+	if pk == nil {
+		c.Fail(rule, "anchor", token.NoPos, "bufmodule not found")
+		return
+	}
+	info := pk.TypesInfo
+	fr := p.Func("private/bufpkg/bufmodule", "getModuleDepsRec")
+	if fr == nil {
+		c.Fail(rule, "anchor", token.NoPos, "getModuleDepsRec not found")
+		return
+	}
+	var doesLookup func(n ast.Node, depth int) bool
+	doesLookup = func(n ast.Node, depth int) bool {
+		found := false
+		ast.Inspect(n, func(m ast.Node) bool {
+			call, ok := m.(*ast.CallExpr)
+			if !ok || found {
+				return !found
+			}
+			fn := Callee(info, call)
+			if fn == nil {
+				return true
+			}
+			if fn.Name() == "getModuleForFilePath" {
+				found = true
+				return false
+			}
+			if depth > 0 && fn.Pkg() == pk.Types {
+				if d := p.DeclOf(fn); d != nil && d.Decl.Body != nil && d.Obj != fr.Obj && doesLookup(d.Decl.Body, depth-1) {
+					found = true
+				}
+			}
+			return !found
+		})
+		return found
+	}
+	n := 0
+	ast.Inspect(fr.Decl.Body, func(m ast.Node) bool {
+		rs, ok := m.(*ast.RangeStmt)
+		if !ok {
+			return true
+		}
+		// the innermost loop whose body (top level) performs the lookup
+		for i, st := range rs.Body.List {
+			if _, isLoop := st.(*ast.RangeStmt); isLoop {
+				continue
+			}
+			if _, isFor := st.(*ast.ForStmt); isFor {
+				continue
+			}
+			if !doesLookup(st, 2) {
+				continue
+			}
+			// a statement holding nested loops that do the lookup is not the lookup statement
+			nested := false
+			ast.Inspect(st, func(x ast.Node) bool {
+				if r2, ok := x.(*ast.RangeStmt); ok && doesLookup(r2.Body, 2) {
+					nested = true
+				}
+				return !nested
+			})
+			if nested {
+				continue
+			}
+			n++
+			skips := 0
+			for _, prev := range rs.Body.List[:i] {
+				inspectNoFuncLit(prev, func(x ast.Node) bool {
+					if b, ok := x.(*ast.BranchStmt); ok && (b.Tok == token.CONTINUE || b.Tok == token.BREAK || b.Tok == token.GOTO) {
+						skips++
+					}
+					return true
+				})
+			}
+			c.Ob(rule, fmt.Sprintf("getModuleDepsRec/range %s", exprString(rs.X)), st.Pos(), skips == 0, true, "the module lookup is a top-level statement of the loop over %s; statements before it that can skip an import: %d", exprString(rs.X), skips)
+			break
+		}
+		return true
+	})
+	if n == 0 {
+		c.Fail(rule, "anchor", fr.Decl.Pos(), "no loop performing the module lookup at its top level found in getModuleDepsRec")
+	}
+}
